@@ -1100,51 +1100,69 @@ def handleThresh (P : Params) : Nat → State → Thresh → Except Panic (State
       if σ.pl.period > e.period then .ok (σ, [])
       else enterPeriod P σ e (e.period + 1)
 
+/-- payloadMalformed / payloadRejected -/
+def PayRes.isDrop : PayRes → Bool
+  | .malformed => true
+  | .rejected => true
+  | _ => false
+
+/-- proposalCommittable / payloadAccepted: a validated payload was stored (the late-payload check applies) -/
+def PayRes.isLate : PayRes → Bool
+  | .committable _ _ => true
+  | .accepted _ _ => true
+  | _ => false
+
+/-- the proposal-vote that authenticated the payload, if the store knew one -/
+def PayRes.auth : PayRes → Option PVote
+  | .pipelined _ _ _ _ _ vote => vote
+  | .accepted vote _ => vote
+  | .committable _ vote => vote
+  | _ => none
+
+/-- payloadPipelined: `some ret` = the early return `[verifyPayload, relay]` (pipelined for the current round),
+otherwise the relay action collected so far -/
+def payloadPre (round : Nat) (p : Payload) : PayRes → Option (List Action) × List Action
+  | .pipelined r per pin _ _ vote =>
+    if r = round then (some [.verifyPayload r per pin p, .relayCompound p vote], [])
+    else (none, [.relayCompound p vote])
+  | _ => (none, [])
+
+/-- the actions before the late-payload check: the pipelined relay and "relay as the proposer" -/
+def payloadActs (round : Nat) (p : Payload) (own : Bool) (ef : PayRes) : List Action :=
+  if own then (payloadPre round p ef).2 ++ [.relayCompound p ef.auth] else (payloadPre round p ef).2
+
+/-- the tail of the payload branch: cert-vote a committable proposal while `Step ≤ cert` -/
+def payloadCont (σ : State) (ef : PayRes) (acts : List Action) : State × List Action :=
+  match ef with
+  | .committable v _ => if σ.pl.step ≤ 2 then (σ, acts ++ [.attest σ.pl.round σ.pl.period 2 v]) else (σ, acts)
+  | _ => (σ, acts)
+
 /-- the payloadPresent / payloadVerified branch of `player.handleMessageEvent` -/
 def handlePayload (P : Params) (fuel : Nat) (σ : State) (verified : Bool) (bad : Bad) (p : Payload) (own : Bool) :
     Except Panic (State × List Action) :=
   match pmPayload P σ verified bad p with
   | .error e => .error e
   | .ok (σ, ef) =>
-    match ef with
-    | .malformed => .ok (σ, [.ignore])
-    | .rejected => .ok (σ, [.ignore])
-    | _ =>
-      -- payloadPipelined: relay, and verify if it is for the current round
-      let pre : Option (List Action) × List Action := match ef with
-        | .pipelined r per pin _ _ vote =>
-          if r = σ.pl.round then (some [.verifyPayload r per pin p, .relayCompound p vote], [])
-          else (none, [.relayCompound p vote])
-        | _ => (none, [])
-      match pre.1 with
+    if ef.isDrop then .ok (σ, [.ignore])
+    else
+      match (payloadPre σ.pl.round p ef).1 with
       | some ret => .ok (σ, ret)
       | none =>
-        let acts := pre.2
-        -- relay as the proposer
-        let uv : Option PVote := match ef with
-          | .pipelined _ _ _ _ _ vote => vote
-          | .accepted vote _ => vote
-          | .committable _ vote => vote
-          | _ => none
-        let acts := if own then acts ++ [.relayCompound p uv] else acts
-        let late : Bool := match ef with | .committable _ _ => true | .accepted _ _ => true | _ => false
-        let cont (σ : State) : Except Panic (State × List Action) :=
-          match ef with
-          | .committable v _ => if σ.pl.step ≤ 2 then .ok (σ, acts ++ [.attest σ.pl.round σ.pl.period 2 v]) else .ok (σ, acts)
-          | _ => .ok (σ, acts)
-        if late then
+        let acts := payloadActs σ.pl.round p own ef
+        if ef.isLate then
+          -- If the payload is valid, check it against any received cert threshold (late payload)
           match freshest P σ σ.pl.round with
           | .error e => .error e
-          | .ok (σ, ok, fr) =>
+          | .ok (σ', ok, fr) =>
             if ok && decide (fr.kind = 2) && decide (fr.proposal = p.value) then
-              match credHistoryTouch P σ with
+              match credHistoryTouch P σ' with
               | .error e => .error e
-              | .ok σ =>
-                match enterRoundK P (handleThresh P fuel) σ (fr.cert.round + 1) with
+              | .ok σ' =>
+                match enterRoundK P (handleThresh P fuel) σ' (fr.cert.round + 1) with
                 | .error e => .error e
-                | .ok (σ, as) => .ok (σ, acts ++ (.ensure p fr.cert :: as))
-            else cont σ
-        else cont σ
+                | .ok (σ', as) => .ok (σ', acts ++ (.ensure p fr.cert :: as))
+            else .ok (payloadCont σ' ef acts)
+        else .ok (payloadCont σ ef acts)
 
 /-- `proposalTable.push` -/
 def pendingPush (pl : PlayerF) (tail : Option Payload) : PlayerF × Nat :=
@@ -1155,44 +1173,48 @@ def pendingPush (pl : PlayerF) (tail : Option Payload) : PlayerF × Nat :=
 def pendingPop (pl : PlayerF) (idx : Nat) : PlayerF × Option Payload :=
   ({ pl with pending := adel pl.pending idx }, (aget pl.pending idx).join)
 
+/-- the deferred function of the proposal-vote branch: pop `Pending[TaskIndex]` (voteVerified) or take `e.Tail`
+(votePresent), and — unless the vote was queued for verification (`done = false`) — handle the tail as a payloadPresent -/
+def pvoteFinish (P : Params) (fuel : Nat) (verified : Bool) (taskIndex : Nat) (tail : Option Payload)
+    (σ : State) (acts : List Action) (done : Bool) : Except Panic (State × List Action) :=
+  let pt := if verified then pendingPop σ.pl taskIndex else (σ.pl, tail)
+  let σ := { σ with pl := pt.1 }
+  match pt.2 with
+  | none => .ok (σ, acts)
+  | some pay =>
+    if !done then .ok (σ, acts)
+    else
+      match handlePayload P fuel σ false 0 pay false with
+      | .error e => .error e
+      | .ok (σ, suffix) => .ok (σ, acts ++ suffix)
+
+/-- the proposal-vote was not filtered away: votePresent ⇒ queue the tail and ask for verification;
+voteVerified ⇒ relay (with the payload if the store already holds it) -/
+def pvoteGo (P : Params) (fuel : Nat) (verified : Bool) (v : PVote) (taskIndex : Nat) (tail : Option Payload)
+    (ef : PMVote) (σ : State) : Except Panic (State × List Action) :=
+  if !verified then
+    let ps := pendingPush σ.pl tail
+    pvoteFinish P fuel verified taskIndex tail { σ with pl := ps.1 } [.verifyVote v.round v.period ps.2] false
+  else
+    match ef with
+    | .accepted (some pay) => pvoteFinish P fuel verified taskIndex tail σ [.broadcastCompound pay (some v)] true
+    | .accepted none => pvoteFinish P fuel verified taskIndex tail σ [.relayVote ⟨v.round, v.period, 0, v.sender, v.value⟩] true
+    | _ => .error .badCast
+
 /-- the proposal-vote branch of `player.handleMessageEvent`, with its deferred tail processing -/
 def handlePVote (P : Params) (fuel : Nat) (σ : State) (verified : Bool) (bad : Bad) (v : PVote) (taskIndex : Nat)
     (tail : Option Payload) : Except Panic (State × List Action) :=
-  let uv : UVote := ⟨v.round, v.period, 0, v.sender, v.value⟩
-  -- the deferred function: pop (verified) / take the tail, handle it as payloadPresent
-  let finish (σ : State) (acts : List Action) (done : Bool) : Except Panic (State × List Action) :=
-    let (pl, tl) := if verified then pendingPop σ.pl taskIndex else (σ.pl, tail)
-    let σ := { σ with pl := pl }
-    match tl with
-    | none => .ok (σ, acts)
-    | some pay =>
-      if !done then .ok (σ, acts)
-      else
-        match handlePayload P fuel σ false 0 pay false with
-        | .error e => .error e
-        | .ok (σ, suffix) => .ok (σ, acts ++ suffix)
-  let r := if verified then pmVoteVerified P σ bad v else pmVotePresent P σ v
-  match r with
+  match (if verified then pmVoteVerified P σ bad v else pmVotePresent P σ v) with
   | .error e => .error e
   | .ok (σ, ef) =>
-    let go (σ : State) : Except Panic (State × List Action) :=
-      -- not filtered away: votePresent ⇒ queue the tail and ask for verification; voteVerified ⇒ relay
-      if !verified then
-        let (pl, seq) := pendingPush σ.pl tail
-        finish { σ with pl := pl } [.verifyVote v.round v.period seq] false
-      else
-        match ef with
-        | .accepted (some pay) => finish σ [.broadcastCompound pay (some v)] true
-        | .accepted none => finish σ [.relayVote uv] true
-        | _ => .error .badCast
     match ef with
-    | .malformed => finish σ [.disconnect] true
+    | .malformed => pvoteFinish P fuel verified taskIndex tail σ [.disconnect] true
     | .filtered note =>
-      if !P.dynFilter then finish σ [.ignore] true
-      else if note = 2 then finish σ [.relayVote uv] true
-      else if note = 0 then finish σ [.ignore] true
-      else go σ
-    | _ => go σ
+      if !P.dynFilter then pvoteFinish P fuel verified taskIndex tail σ [.ignore] true
+      else if note = 2 then pvoteFinish P fuel verified taskIndex tail σ [.relayVote ⟨v.round, v.period, 0, v.sender, v.value⟩] true
+      else if note = 0 then pvoteFinish P fuel verified taskIndex tail σ [.ignore] true
+      else pvoteGo P fuel verified v taskIndex tail ef σ
+    | _ => pvoteGo P fuel verified v taskIndex tail ef σ
 
 /-- fuel for the nesting of round changes inside one top-level event -/
 def defaultFuel : Nat := 6
